@@ -799,7 +799,8 @@ func (*ParserData).BreakSet
   requires forall k in [0, len(p.breakStack)): 0 <= p.breakStack[k] && p.breakStack[k] < IntType(len(p.code))
   assigns ByteCode.Value
   loop 1
-    invariant forall j in [0, rangeIdx): p.code[p.breakStack[p.loopInfo[len(p.loopInfo)-1].breakIndex + j]].Value.(IntType) == IntType(p.codeIndex) - p.breakStack[p.loopInfo[len(p.loopInfo)-1].breakIndex + j] - 1
+    invariant forall k in [info.breakIndex, info.breakIndex + rangeIdx): p.code[p.breakStack[k]].Value.(IntType) == IntType(p.codeIndex) - p.breakStack[k] - 1
+    invariant info.breakIndex == p.loopInfo[len(p.loopInfo)-1].breakIndex && len(p.loopInfo) == atLoopEntry(len(p.loopInfo)) && len(p.breakStack) == atLoopEntry(len(p.breakStack))
   ensures [C02] p.breakStack != nil ==> forall k in [p.loopInfo[len(p.loopInfo)-1].breakIndex, len(p.breakStack)): p.breakStack[k] + 1 + p.code[p.breakStack[k]].Value.(IntType) == IntType(p.codeIndex)
 
 // ---- rollvm.go: the VM ----
